@@ -149,6 +149,9 @@ pub struct ChordsV2<'a, T> {
     prev_queue_len: u8,
     /// Virtual coordinate for use in the layout state.
     next_coord: Cell<u16>,
+    /// Coordinates of chords that were pushed out of `active_chords` because it was full.
+    /// Their releases are sent on the next tick.
+    evicted_coords: HVec<u16, SMOL_Q_LEN>,
 }
 
 impl<T> std::fmt::Debug for ChordsV2<'_, T> {
@@ -170,6 +173,7 @@ impl<'a, T> ChordsV2<'a, T> {
             prev_active_layer: u16::MAX,
             prev_queue_len: u8::MAX,
             next_coord: Cell::new(KEY_MAX + 1),
+            evicted_coords: HVec::new(),
         }
     }
 
@@ -420,8 +424,7 @@ impl<'a, T> ChordsV2<'a, T> {
                         .all(|pk| accumulated_presses.contains(pk))
                     {
                         let ach = get_active_chord(cch, since, coord, relevant_release_found);
-                        let overflow = self.active_chords.push(ach);
-                        assert!(overflow.is_ok(), "active chords has room");
+                        add_active_chord(&mut self.active_chords, &mut self.evicted_coords, ach);
                         break;
                     }
                 }
@@ -453,8 +456,7 @@ impl<'a, T> ChordsV2<'a, T> {
                         Some(cch) => {
                             let coord = self.next_coord();
                             let ach = get_active_chord(cch, since, coord, relevant_release_found);
-                            let overflow = self.active_chords.push(ach);
-                            assert!(overflow.is_ok(), "active chords has room");
+                            add_active_chord(&mut self.active_chords, &mut self.evicted_coords, ach);
                         }
                         None => no_chord_activations!(self),
                     }
@@ -506,8 +508,7 @@ impl<'a, T> ChordsV2<'a, T> {
                 Some(cch) => {
                     let ach =
                         get_active_chord(cch, since, self.next_coord(), relevant_release_found);
-                    let overflow = self.active_chords.push(ach);
-                    assert!(overflow.is_ok(), "active chords has room");
+                    add_active_chord(&mut self.active_chords, &mut self.evicted_coords, ach);
                 }
                 None => {
                     no_chord_activations!(self)
@@ -535,6 +536,13 @@ impl<'a, T> ChordsV2<'a, T> {
     }
 
     fn clear_released_chords(&mut self, drainq: &mut SmolQueue) {
+        for coordinate in self.evicted_coords.iter().copied() {
+            drainq.push_back(Queued {
+                event: Event::Release(0, coordinate),
+                since: 0,
+            });
+        }
+        self.evicted_coords.clear();
         self.active_chords.retain(|ach| {
             if ach.status == Released {
                 let overflow = drainq.push_back(Queued {
@@ -548,6 +556,23 @@ impl<'a, T> ChordsV2<'a, T> {
             }
         });
     }
+}
+
+/// Track a newly activated chord. More chords than `active_chords` holds can only be active at
+/// once if keys are never released (e.g. duplicated press events from the OS): in that case the
+/// oldest active chord is let go instead of panicking.
+fn add_active_chord<'a, T>(
+    active_chords: &mut HVec<ActiveChord<'a, T>, 10>,
+    evicted_coords: &mut HVec<u16, SMOL_Q_LEN>,
+    ach: ActiveChord<'a, T>,
+) {
+    if active_chords.is_full() {
+        let oldest = active_chords.remove(0);
+        // If this list is full as well the release is dropped; the coordinate is reused after 50
+        // activations anyway.
+        let _ = evicted_coords.push(oldest.coordinate);
+    }
+    let _ = active_chords.push(ach);
 }
 
 /// Release the key from active chords.
